@@ -8,6 +8,7 @@ import SwiftMT.Tokeniser
 import SwiftMT.Fields.Registry
 import SwiftMT.Rules
 import SwiftMT.JsonShape
+import SwiftMT.Generated.FakeLangs
 import Driver.Hex
 /-
 Line-protocol driver over the executable model: one request per line on stdin, one answer per line on
@@ -197,6 +198,15 @@ def handle (args : List String) : String :=
     | some txt => (match J.parse txt with
       | some m => if conforms ty m then "ok" else "nonconforming"
       | none => "bad-json")
+    | none => "bad-op"
+  | ["leaf", kind, args, i] => match unhex i with
+    | some txt =>
+      let a := if args == "-" then [] else args.splitOn ","
+      (match (Generated.Scenarios.fakeLangs.find? (fun p => p.1 == kind && p.2.1 == a)).map (·.2.2) with
+      | some L =>
+        let bicOk := if kind == "bic8" || kind == "bic11" then Scenario.bicB txt else true
+        if L.memB txt && bicOk then "in" else "out"
+      | none => "nokind")
     | none => "bad-op"
   | ["vallist"] => ",".intercalate (Rules.modelled.map (fun p => toString p.1))
   | ["fldlist"] => ",".intercalate (Fields.registry.map (·.1))
